@@ -165,7 +165,8 @@ inductive Kind where
   | runWorker                 -- Module.RunWorker
   | startWorker               -- Module.StartWorker (goroutine around RunWorker)
   | hook                      -- runEventHook → hookingModule.RunWorker
-  | api (afterWrite : Bool)   -- mainHandler.ServeHTTP: RunWorker("http request") around handle + handler
+  | api (afterWrite : Bool) (dev : Bool)  -- mainHandler.ServeHTTP: RunWorker("http request") around handle + handler;
+                              -- `dev`: the option core/devMode when the handler-level recover runs
   | svc                       -- runServiceWorker
   | task                      -- Task.runWithLocking / executeWithLocking
   | mt (blocking : Bool)      -- Run*MicroTask / Start*MicroTask (all three priorities)
@@ -174,7 +175,7 @@ inductive Kind where
   deriving DecidableEq, Repr, Inhabited
 
 def Kind.workerLike : Kind → Bool
-  | .runWorker | .startWorker | .hook | .api _ => true
+  | .runWorker | .startWorker | .hook | .api _ _ => true
   | _ => false
 
 /-- One managed execution. -/
@@ -186,6 +187,7 @@ structure Item where
   ret : Option Ret := none    -- the error returned by the blocking variant
   cret : Option CtrlRet := none -- the result of the routine as startCtrlFn will send it on ctrlFnError
   http : Nat := 0             -- status of the HTTP response (api)
+  detail : Bool := false      -- the response carries the dev-mode page (panic value and stack trace)
   reps : Nat := 0             -- reports made by this item
   pans : Nat := 0             -- panics raised in this item's function
   runs : Nat := 0             -- runs of the user function started so far
@@ -260,14 +262,21 @@ def workerStep (it : Item) : Option (Item × Eff) :=
   | 1 => some ({ it.take with pc := 2 }, {})                        -- fn(m.Ctx) returns or panics
   | 2 =>                                                            -- deferred recover
     match it.kind with
-    | .api aw =>
-      -- handler-level recover in mainHandler.handle answers 500 and reports "custom";
+    | .api aw dev =>
+      -- handler-level recover in mainHandler.handle (router.go:286-307):
+      --   me := module.NewPanicError("api request", "custom", panicValue); me.Report()
+      --   if devMode() { http.Error(lrw, "Internal Server Error: <value>\n\n<stack>", 500) }
+      --   else { http.Error(lrw, "Internal Server Error.", 500) }
       -- handle returns nil, so runWorker's own recover sees nothing and RunWorker returns nil
       match it.cur with
       | .panic v =>
         if recovered v ≠ .nil then
-          some ({ it with pc := 3, ret := some .nil, http := httpStatus aw it.cur, reps := it.reps + 1 },
-                { rep := some (panicReport .custom v) })
+          if dev then
+            some ({ it with pc := 3, ret := some .nil, http := httpStatus aw it.cur, detail := true, reps := it.reps + 1 },
+                  { rep := some (panicReport .custom v) })
+          else
+            some ({ it with pc := 3, ret := some .nil, http := httpStatus aw it.cur, detail := false, reps := it.reps + 1 },
+                  { rep := some (panicReport .custom v) })
         else some ({ it with pc := 3, ret := some .nil, http := httpStatus aw .ok }, {})
       | o => some ({ it with pc := 3, ret := some .nil, http := httpStatus aw o }, {})
     | _ =>
@@ -373,7 +382,7 @@ def stopStep (env : Env) (it : Item) : Option (Item × Eff) :=
 
 def itemStep (env : Env) (it : Item) (ch : Bool) : Option (Item × Eff) :=
   match it.kind with
-  | .runWorker | .startWorker | .hook | .api _ => workerStep it
+  | .runWorker | .startWorker | .hook | .api _ _ => workerStep it
   | .svc => svcStep env it ch
   | .task => taskStep env it
   | .mt _ => mtStep it
@@ -383,7 +392,7 @@ def itemStep (env : Env) (it : Item) (ch : Bool) : Option (Item × Eff) :=
 /-- pc at which the item has finished (for a task: is idle). -/
 def Item.done (it : Item) : Bool :=
   match it.kind with
-  | .runWorker | .startWorker | .hook | .api _ => it.pc == 5
+  | .runWorker | .startWorker | .hook | .api _ _ => it.pc == 5
   | .svc => it.pc == 7
   | .task => it.pc == 7 || it.pc == 8
   | .mt _ => it.pc == 7
@@ -393,7 +402,7 @@ def Item.done (it : Item) : Bool :=
 /-- pc at which the item is inside its user function (held by the scenario until released). -/
 def Item.inFn (it : Item) : Bool :=
   match it.kind with
-  | .runWorker | .startWorker | .hook | .api _ => it.pc == 1
+  | .runWorker | .startWorker | .hook | .api _ _ => it.pc == 1
   | .svc => it.pc == 2
   | .task => it.pc == 2
   | .mt _ => it.pc == 2
@@ -404,7 +413,7 @@ def Item.inFn (it : Item) : Bool :=
 
 def Item.cw (it : Item) : Int :=
   match it.kind with
-  | .runWorker | .startWorker | .hook | .api _ => if 1 ≤ it.pc ∧ it.pc ≤ 3 then 1 else 0
+  | .runWorker | .startWorker | .hook | .api _ _ => if 1 ≤ it.pc ∧ it.pc ≤ 3 then 1 else 0
   | .svc => if 1 ≤ it.pc ∧ it.pc ≤ 5 then 1 else 0
   | _ => 0
 
@@ -433,7 +442,7 @@ def Item.cc (it : Item) : Int :=
 /-- 1 while a `checkIfStopComplete` of this item is still to come. -/
 def Item.pendingCheck (it : Item) : Int :=
   match it.kind with
-  | .runWorker | .startWorker | .hook | .api _ => if it.pc ≤ 4 then 1 else 0
+  | .runWorker | .startWorker | .hook | .api _ _ => if it.pc ≤ 4 then 1 else 0
   | .svc => if it.pc ≤ 6 then 1 else 0
   | .task => if 1 ≤ it.pc ∧ it.pc ≤ 5 then 1 else 0
   | .mt _ => if it.pc ≤ 5 then 1 else 0
@@ -444,7 +453,7 @@ def Item.pendingCheck (it : Item) : Int :=
 def Item.pendingReport (it : Item) : Nat :=
   if it.cur.isPanic then
     match it.kind with
-    | .runWorker | .startWorker | .hook | .api _ => if it.pc = 2 then 1 else 0
+    | .runWorker | .startWorker | .hook | .api _ _ => if it.pc = 2 then 1 else 0
     | .svc => if it.pc = 3 then 1 else 0
     | .task => if it.pc = 3 then 1 else 0
     | .mt _ => if it.pc = 3 then 1 else 0
